@@ -3,7 +3,7 @@
 # so that neither /repo nor the live /verif build is disturbed.  usage: seed_batch.sh <out.jsonl> "<seed-dir> <pkg> <PROP>..." ...
 set -u
 OUT=$1; shift
-EV=/tmp/evalverif; ER=/tmp/evalrepo
+S=${EVAL_SUFFIX:-}; EV=/tmp/evalverif$S; ER=/tmp/evalrepo$S
 mkdir -p $EV
 rsync -a --delete --exclude .git --exclude scratch --exclude replays /verif/ $EV/
 if [ ! -d $ER ]; then git -C /repo worktree add -q --detach $ER HEAD; fi
